@@ -67,8 +67,19 @@ func envSeed() uint64 {
 	return 1
 }
 
+// runPlan executes the plan twice in this (fresh) process and reports the second execution.
+// The first is a dry run whose only purpose is to bring every lazily initialised piece of process
+// state the plan touches (encoding/json and reflect type caches, sync.Map roots, package-level
+// once-initialisers: each of them draws from the simulated random stream when it first runs inside
+// the bubble) into the same warm state whatever happened in the process before - generating the plan
+// or loading it from a replay file. sync.Pools are emptied by the two collections in between.
 func runPlan(pr *props.Property, p *sim.Plan, hist bool, multiP bool) *sim.Result {
-	return sim.Run(p, sim.RunOpts{KeepHistory: hist, MultiP: multiP}, pr.Run)
+	if !multiP && os.Getenv("DST_NO_DRYRUN") == "" {
+		sim.Run(p.Clone(), sim.RunOpts{}, pr.Run)
+		runtime.GC()
+		runtime.GC()
+	}
+	return sim.Run(p.Clone(), sim.RunOpts{KeepHistory: hist, MultiP: multiP}, pr.Run)
 }
 
 // workerMain: prints "S <idx>" before each run and "R <json>" after it.
